@@ -8,6 +8,12 @@ package v3
 //@ // ---- C16: the minter parameter migration keeps every period's sequence id and end time, in order ----
 //@ func MigrateParams(ctx, storeKey, legacySubspace, cdc) (err)
 //@   modifies $kvHas, $kvVal
+//@   // what is written is the encoding of parameters the current validation accepts ("migrated minter parameters validate"),
+//@   // and a refused migration writes nothing
+//@   ensures [stored-valid] err == nil ==> $kvHas[storeOf(storeKey)][global("types.ParamsKey")]
+//@     && minterParamsValid(decSnap("types.Params", $kvVal[storeOf(storeKey)][global("types.ParamsKey")]))
+//@   ensures [refused-writes-nothing] err != nil ==> kvUnchanged()
+//@   ensures kvOnlyChanged(storeOf(storeKey), global("types.ParamsKey"))
 //@   prop C16
 //@ loop MigrateParams#1
 //@   invariant 0 <= \i && \i <= len(oldParams.MinterConfig.Minters) && len(newParams.Minters) == \i && off(newParams.Minters) == 0
